@@ -35,7 +35,7 @@ from . import common as C
 from . import coqbuild
 
 WORK = os.path.join(C.CACHE, "slotcorr")
-VOS = ["Slots.vo", "Erase.vo", "Alias.vo", "Throw.vo", "EmplaceGrow.vo", "ThrowMove.vo", "SlotsTR.vo", "Transfer.vo", "AliasThrow.vo", "SwapThrow.vo"]
+VOS = ["Slots.vo", "Erase.vo", "Alias.vo", "Throw.vo", "EmplaceGrow.vo", "ThrowMove.vo", "SlotsTR.vo", "Transfer.vo", "AliasThrow.vo", "SwapThrow.vo", "MoveThrow.vo"]
 RANGE_VALUE = 100       # slotdrv.cpp: kRangeValue (insert_range_tr: the source range holds 100, 101, ...)
 NEW_VALUE = 99          # slotdrv.cpp: kNewValue
 FIRST_VALUE = 10        # slotdrv.cpp: kFirstValue
@@ -156,6 +156,10 @@ CASES = {
                      ["SwapThrow.swap_ranges", "SwapThrow.swap1", "SwapThrow.unwind", "ThrowMove.move_construct", "ThrowMove.move_assign",
                       "Transfer.uninit_relocate_n", "Transfer.uninit_move_n", "Transfer.uninit_move_loop", "Throw.destroy_n", "Throw.destroy",
                       "Throw.tick"]),
+    # coq/MoveThrow.v: move_n on vf::El<2>
+    "move_n_mt": (("n", "cap1", "dn", "cap2"), True, "KMoveNMt", "MoveThrow.move_n_mt",
+                  ["ThrowMove.move_forward", "ThrowMove.move_assign", "ThrowMove.uninit_move_n", "ThrowMove.uninit_move_loop",
+                   "ThrowMove.move_construct", "Throw.destroy_n", "Throw.destroy", "Throw.tick", "ThrowMove.lift"]),
     "move_n": (("n", "cap1", "dn", "cap2"), True, "KMoveN false", "Transfer.move_n",
                ["EmplaceGrow.mv_forward", "EmplaceGrow.mv_assign", "EmplaceGrow.mv_uninit_n", "EmplaceGrow.mv_construct", "Throw.destroy_n",
                 "Throw.destroy", "ThrowMove.lift"]),
@@ -238,14 +242,14 @@ HAS_NEWSIZE = ("insert_cnt", "resize_grow", "emplace_n_th", "emplace_grow_th", "
                "insert_own_tr", "insert_cnt_own_tr", "push_back_own_tr", "insert_range_in_tr")
 # families whose state is made of segments `a/b/...` (slotdrv.cpp, SLOTDRV.md): block/argument/e  or  old block/argument/e/new block
 COMPOSITE = {"emplace_n_th": 3, "emplace_grow_th": 4, "emplace_back_grow_th": 4, "emplace_n_mt": 3, "emplace_n_tr": 3,
-             "swap_deep": 3, "swap_deep_tr": 3, "swap_deep_mt": 3, "move_n": 3, "move_n_tr": 3, "reloc": 3, "reloc_tr": 3, "reloc_cp": 3, "reloc_mt": 3,
+             "swap_deep": 3, "swap_deep_tr": 3, "swap_deep_mt": 3, "move_n": 3, "move_n_mt": 3, "move_n_tr": 3, "reloc": 3, "reloc_tr": 3, "reloc_cp": 3, "reloc_mt": 3,
              "insert_own_th": 3, "insert_cnt_own_th": 3, "push_back_own_th": 3, "insert_range_in_th": 3,
              "insert_own_tr": 3, "insert_cnt_own_tr": 3, "push_back_own_tr": 3, "insert_range_in_tr": 3}
 # composite families on a whole vector (coq/AliasThrow.v): block 0..cap-1/e/new block
 VEC3 = ("insert_own_th", "insert_cnt_own_th", "push_back_own_th", "insert_range_in_th",
         "insert_own_tr", "insert_cnt_own_tr", "push_back_own_tr", "insert_range_in_tr")
 # composite families made of TWO buffers: buffer 1/buffer 2/e (coq/Transfer.v); the others: block/argument/e[/new block]
-TWO_BUF = ("swap_deep", "swap_deep_tr", "swap_deep_mt", "move_n", "move_n_tr", "reloc", "reloc_tr", "reloc_cp", "reloc_mt")
+TWO_BUF = ("swap_deep", "swap_deep_tr", "swap_deep_mt", "move_n_mt", "move_n", "move_n_tr", "reloc", "reloc_tr", "reloc_cp", "reloc_mt")
 # composite families whose block segment is `cap` slots long (the others: `size`)
 BLOCK_IS_CAP = ("emplace_n_th", "emplace_n_mt", "emplace_n_tr")
 # families on the trivially relocatable element vf::El<1>: objects are moved bitwise, the marker `!` is legal there (see relocation_marks)
@@ -260,7 +264,7 @@ HEAD = re.compile(r"^CASE (\S+) ((?:\w+=\d+ )+)k=(-|\d+) \|")
 COQ_PRELUDE = r"""(* generated by lib/slotcorr.py: evaluates the slot models on the cases the C++ driver ran *)
 From Coq Require Import ZArith List Arith Bool.
 From Amc Require Import Slots Erase Alias Throw EmplaceGrow.
-From Amc Require ThrowMove SlotsTR Transfer AliasThrow SwapThrow.
+From Amc Require ThrowMove SlotsTR Transfer AliasThrow SwapThrow MoveThrow.
 Import ListNotations.
 Set Printing Depth 1000000.
 Set Printing Width 200.
@@ -358,6 +362,7 @@ Inductive case :=
 | KSwapDeep (tr : bool) (n1 cap1 n2 cap2 : nat) (th : option nat)
 | KMoveN (tr : bool) (n cap1 dn cap2 : nat) (th : option nat)
 | KSwapDeepMt (n1 cap1 n2 cap2 : nat) (th : option nat)
+| KMoveNMt (n cap1 dn cap2 : nat) (th : option nat)
 | KReloc (tr : bool) (n cap1 cap2 : nat) (th : option nat)
 | KRelocCopy (n cap1 cap2 : nat) (th : option nat)
 | KRelocMt (n cap1 cap2 : nat) (th : option nat)
@@ -456,6 +461,8 @@ Definition run (c : case) : list Z :=
       showE (idx2 cap1 cap2) (ThrowMove.lift (Transfer.swap_deep tr (Transfer.init2 n1 cap1 n2 cap2) (cap1 + 1) 0 n1 (cap1 + 3) n2) th) NOSIZE NOSIZE
   | KMoveN tr n cap1 dn cap2 th =>
       showE (idx2 cap1 cap2) (ThrowMove.lift (Transfer.move_n tr (Transfer.init2 n cap1 dn cap2) 0 n (cap1 + 3) dn) th) NOSIZE NOSIZE
+  | KMoveNMt n cap1 dn cap2 th =>
+      showE (idx2 cap1 cap2) (MoveThrow.move_n_mt (Transfer.init2 n cap1 dn cap2) th 0 n (cap1 + 3) dn) NOSIZE NOSIZE
   | KSwapDeepMt n1 cap1 n2 cap2 th =>
       showE (idx2 cap1 cap2) (SwapThrow.swap_deep_mt (Transfer.init2 n1 cap1 n2 cap2) th (cap1 + 1) 0 n1 (cap1 + 3) n2) NOSIZE NOSIZE
   | KReloc tr n cap1 cap2 th =>
@@ -764,7 +771,7 @@ def expected_bases(max_size, max_extra):
                 for e2 in range(slack + 1):
                     for name in ("swap_deep", "swap_deep_tr", "swap_deep_mt"):
                         out.add((name, n1, max(n1, n2) + e1, n2, max(n1, n2) + e2))
-                    for name in ("move_n", "move_n_tr"):
+                    for name in ("move_n", "move_n_tr", "move_n_mt"):
                         out.add((name, n1, n1 + e1, n2, max(n1, n2) + e2))
     for n in range(max_size + 1):
         for e1 in range(slack + 1):
